@@ -363,6 +363,16 @@ class IdRules:
                 good = True
             elif isinstance(r, tuple) and r[0] == 'app' and r[1] == 'operator bool' and self.idf in txt:
                 good = True
+            else:
+                # id_ != nullptr  /  !(id_ == nullptr)  /  nullptr != id_
+                neg, x = False, r
+                while isinstance(x, tuple) and x and x[0] in ('not', 'ne0'):
+                    neg, x = (not neg if x[0] == 'not' else neg), x[1]
+                if isinstance(x, tuple) and x and x[0] == 'app' and x[1] in ('operator==', 'operator!=') and self.idf in txt:
+                    args = [a for a in x[2] if not (isinstance(a, tuple) and a and a[0] == 'c' and a[2] == 8)]
+                    nulls = [a for a in args if is_const(a) and a[1] == 0]
+                    if len(args) == 2 and len(nulls) == 1:
+                        good = (x[1] == 'operator!=') != neg
             sink.emit('C05.STABLE', 'ok' if good else 'violated', 'HasID is true whenever the holder owns a heartbeat', '%s:%s' % (hid['file'], hid['line']),
                       'returns %s' % txt[:80] if good else 'returns %s: a thread that already has an ID can be sent through the claim loop again' % txt[:80])
         # extents agree with the consumer (EpochManager::tls_fields_)
